@@ -710,3 +710,82 @@ V("irb-piecewise-any", ["C01", "C08"], ["GEN-IRBLOCKS"], "fire", (IRI, "        
 V("irb-diagonal-keeps-all", ["C10"], ["GEN-IRBLOCKS", "OPT-GATE"], "fire", (IRI, "            and blockmap[0] != blockmap[1]\n", "            and blockmap[0] is None\n"))
 V("irb-ones-tables-emitted", ["C08", "C02"], ["GEN-IRBLOCKS"], "benign", (IRI, "    for name in sorted(active_table_names):\n", "    for name in sorted(set(active_table_names)):\n"))
 V("po-skip-disabled", ["C05", "C01"], ["PREFIX-OFFSETS"], "fire", (REP, "            _offset += width * element_dimensions[el]\n", "            if itg_data.enabled_coefficients[i]:\n                _offset += width * element_dimensions[el]\n"))
+
+# ---- entity point maps and the tabulation driver ----------------------------------------------------
+EIF = "ffcx/element_interface.py"
+RUF = "ffcx/ir/representationutils.py"
+ETF = "ffcx/ir/elementtables.py"
+PM = ["ENTITY-POINT-MAPS", "GEN-TABVALUES"]
+V("pm-facet-zip-includes-v0", ["C02"], PM, "fire",
+  (EIF, "            facet_vertices[0]\n            + sum((i - facet_vertices[0]) * j for i, j in zip(facet_vertices[1:], p))",
+        "            facet_vertices[0]\n            + sum((i - facet_vertices[0]) * j for i, j in zip(facet_vertices[:0:-1], p))"))
+V("pm-edge-wrong-topology-level", ["C02"], PM, "fire",
+  (EIF, "edge_vertices = [geom[i] for i in basix.topology(_CellType[cellname])[-3][edge]]", "edge_vertices = [geom[i] for i in basix.topology(_CellType[cellname])[1][edge]]"))
+V("pm-edge-reversed", ["C02"], PM, "fire",
+  (EIF, "edge_vertices[0] + sum((i - edge_vertices[0]) * j for i, j in zip(edge_vertices[1:], p))", "edge_vertices[1] + sum((i - edge_vertices[1]) * j for i, j in zip(edge_vertices[:1], p))"))
+V("pm-vertex-uses-first", ["C02"], PM, "fire",
+  (RUF, "return np.asarray([reference_cell_vertices(cell.cellname)[entity]])", "return np.asarray([reference_cell_vertices(cell.cellname)[0]])"))
+V("pm-ridge-dim", ["C02"], PM, "fire",
+  (RUF, "    elif integral_type in ufl.measure.ridge_integral_types:\n        entity_dim = tdim - 2", "    elif integral_type in ufl.measure.ridge_integral_types:\n        entity_dim = max(tdim - 2, 1)"))
+V("pm-benign-comprehension", ["C02"], PM, "benign",
+  (EIF, "    facet_vertices = [geom[i] for i in basix.topology(_CellType[cellname])[-2][facet]]", "    topo = basix.topology(_CellType[cellname])\n    facet_vertices = [geom[v] for v in topo[len(topo) - 2][facet]]"))
+V("tv-entity-points-unmapped", ["C02"], PM, "fire",
+  (ETF, "            entity_points = map_integral_points(points, integral_type, cell, entity)", "            entity_points = map_integral_points(points, integral_type, cell, 0)"))
+V("tv-derivative-index", ["C01", "C02"], PM, "fire",
+  (ETF, "        tbl = tbl[basix_index(derivative_counts)]", "        tbl = tbl[basix_index(tuple(reversed(derivative_counts)))]"))
+V("tv-last-entity-everywhere", ["C02"], PM, "fire",
+  (ETF, "        res[:, entity, :, :] = component_tables[entity]", "        res[:, entity, :, :] = component_tables[-1]"))
+V("tv-codim1-mapped", ["C02"], PM, "fire",
+  (ETF, "        if codim == 0:\n            entity_points = map_integral_points", "        if codim == 0 or codim == 1:\n            entity_points = map_integral_points"))
+V("tv-expression-facet-as-cell", ["C04"], PM, "fire",
+  (ETF, "        if entity_type == \"cell\":\n            integral_type = \"cell\"\n        else:\n            integral_type = \"exterior_facet\"", "        integral_type = \"cell\""))
+V("tv-benign-enumerate", ["C02"], PM, "benign",
+  (ETF, "    for entity in range(num_entities):\n        res[:, entity, :, :] = component_tables[entity]", "    for entity, ctab in enumerate(component_tables):\n        res[:, entity, :, :] = ctab"))
+
+# ---- argument factorisation driver ---------------------------------------------------------------------
+FAF = "ffcx/ir/analysis/factorization.py"
+MTF = "ffcx/ir/analysis/modified_terminals.py"
+FD = ["FACT-DRIVER"]
+V("fd-argkey-unsorted", ["C01"], FD, "fire",
+  (FAF, "ai_fi = {tuple(sorted(arg_indices.index(si) for si in argkey)): fi}", "ai_fi = {tuple(arg_indices.index(si) for si in reversed(argkey)): fi}"))
+V("fd-ordering-key-number-last", ["C01"], FD, "fire",
+  (MTF, "        return (n, p, rv, fc, gd, ld, a, r)", "        return (fc, gd, ld, a, r, rv, p, n)"))
+V("fd-arguments-unsorted", ["C01"], FD, "fire",
+  (FAF, "    ordered_arg_indices = sorted(arg_indices, key=arg_ordering_key)", "    ordered_arg_indices = list(arg_indices)"))
+V("fd-component-not-recorded", ["C01", "C04"], FD, "fire",
+  (FAF, "                    if factors.get(comp):\n                        factors[comp].update(ai_fi)\n                    else:\n                        factors[comp] = ai_fi",
+        "                    factors[comp] = ai_fi"))
+V("fd-shared-dict-between-components", ["C04"], FD, "benign",
+  (FAF, "                    else:\n                        factors[comp] = ai_fi", "                    else:\n                        factors[comp] = dict(ai_fi)"))
+V("fd-division-registered-as-product", ["C01"], FD, "fire",
+  (FAF, "@handler.register(Division)\ndef handle_division", "@handler.register(Division)\ndef _unused_division(v, fac, sf, F):\n    return handle_product(v, fac, sf, F)\n\n\ndef handle_division"))
+V("fd-scalar-nodes-not-inserted", ["C01"], FD, "fire",
+  (FAF, "                graph_insert(F, v)\n                factors = noargs", "                factors = noargs"))
+V("fd-dependency-edges-reversed", ["C01"], FD, "fire",
+  (FAF, "                F.add_edge(i, F.e2i[o])", "                F.add_edge(F.e2i[o], i)"))
+V("fd-rank0-first-component-only", ["C04"], FD, "fire",
+  (FAF, "                for comp in S.nodes[S_target][\"component\"]:\n                    factors[comp] = {(): F.e2i[S.nodes[S_target][\"expression\"]]}",
+        "                comp = S.nodes[S_target][\"component\"][0]\n                factors[comp] = {(): F.e2i[S.nodes[S_target][\"expression\"]]}"))
+V("fd-benign-loop-rewrite", ["C01"], FD, "benign",
+  (FAF, "    for v in AV:\n        graph_insert(F, v)\n", "    for arg_expr in AV:\n        graph_insert(F, arg_expr)\n"))
+GRF = "ffcx/ir/analysis/graph.py"
+GB = ["GRAPH-BUILD", "FACT-DRIVER"]
+V("gb-preorder-numbering", ["C01"], GB, "fire",
+  (GRF, "        for i, o in enumerate(ops):\n            if o is not None and o not in e2i:\n                stack.append((o, getops(o)))\n                ops[i] = None\n                break\n        else:\n            if not isinstance(expr, ufl.classes.MultiIndex | ufl.classes.Label):\n                count = len(e2i)\n                e2i[expr] = count\n            stack.pop()",
+        "        if not isinstance(expr, ufl.classes.MultiIndex | ufl.classes.Label):\n            e2i[expr] = len(e2i)\n        stack.pop()\n        for o in reversed(ops):\n            if o not in e2i:\n                stack.append((o, getops(o)))"))
+V("gb-edges-skip-second-operand", ["C01"], GB, "fire",
+  (GRF, "            V_deps.append([G.e2i[o] for o in expr.ufl_operands])", "            V_deps.append([G.e2i[o] for o in expr.ufl_operands[:1]])"))
+V("gb-modified-terminals-expanded", ["C01"], GB, "fire",
+  (GRF, "    G = build_graph_vertices(scalar_expressions, skip_terminal_modifiers=True)", "    G = build_graph_vertices(scalar_expressions, skip_terminal_modifiers=False)"))
+V("gb-component-overwritten", ["C04"], GB, "fire",
+  (GRF, "        G.nodes[V_target][\"component\"] = G.nodes[V_target].get(\"component\", [])\n        G.nodes[V_target][\"component\"].append(comp)", "        G.nodes[V_target][\"component\"] = [comp]"))
+V("gb-benign-edge-loop", ["C01"], GB, "benign",
+  (GRF, "    for i, edges in enumerate(V_deps):\n        for j in edges:\n            if i == j:\n                continue\n            G.add_edge(i, j)", "    for i, edges in enumerate(V_deps):\n        for j in edges:\n            if i != j:\n                G.add_edge(i, j)"))
+V("clamp-default-tolerances-inside", ["C10"], ["TABLE-CLAMP", "OPT-GATE"], "fire",
+  (ETF, "        table[np.where(np.isclose(table, n, rtol=rtol, atol=atol))] = n", "        table[np.where(np.isclose(table, n))] = n"))
+V("clamp-swapped-tolerances", ["C10"], ["TABLE-CLAMP", "OPT-GATE"], "fire",
+  (ETF, "        table[np.where(np.isclose(table, n, rtol=rtol, atol=atol))] = n", "        table[np.where(np.isclose(table, n, rtol=atol, atol=rtol))] = n"))
+V("clamp-to-zero-only", ["C10"], ["TABLE-CLAMP", "OPT-GATE"], "fire",
+  (ETF, "        table[np.where(np.isclose(table, n, rtol=rtol, atol=atol))] = n", "        table[np.where(np.isclose(table, n, rtol=rtol, atol=atol))] = 0.0"))
+V("clamp-benign-positional", ["C10"], ["TABLE-CLAMP", "OPT-GATE"], "benign",
+  (ETF, "        table[np.where(np.isclose(table, n, rtol=rtol, atol=atol))] = n", "        close = np.isclose(table, n, rtol, atol)\n        table[np.where(close)] = n"))
